@@ -24,7 +24,7 @@ import time
 from common import CACHE, REPO, Undecided, log, read_json, sha256_bytes, write_json
 
 VERUS_VERSION = "verus-0.2026.09.13"
-_ARG = re.compile(r"<<<(.*?)>>>")
+_ARG = re.compile(r"<<<(.*?)>>>(?!>)")
 _SPEC_KW = ("requires", "ensures", "decreases", "recommends", "opens_invariants", "no_unwind", "returns")
 
 BOUNDARY = ("postcondition not satisfied", "precondition not satisfied", "possible arithmetic underflow/overflow",
